@@ -138,6 +138,19 @@ def check(src, toks, ctx=None):
                 # column consistency: relative to the innermost quote's content origin on each line, all lines of one verbatim block
                 # lose the same indentation column I; a line that kept leading spaces (or got them from a partially consumed
                 # tab) must have lost exactly I columns
+                if cols and ty == "fence":
+                    # a fence strips exactly its own indentation: the column of the opening marker (quote-relative)
+                    l0 = lines[b]
+                    tail0 = t.markup + t.info
+                    if l0.endswith(tail0):
+                        pre0 = l0[:len(l0) - len(tail0)]
+                        fi = width(pre0) - origin(pre0)
+                        for c0, strict, ci, si in cols:
+                            if c0 > fi or (strict and c0 != fi):
+                                errs.append(("fence-own-indent", f"fence opened at column {fi} but content line {si!r} -> {ci!r} lost {c0} columns"))
+                                break
+                        else:
+                            cnt("fence_indent_checks", len(cols))
                 if cols:
                     imax = max(c0 for c0, _, _, _ in cols)
                     for c0, strict, ci, si in cols:
